@@ -1,6 +1,13 @@
 import Pm.Sort
-/- pilot: hostlist_sort as coded — glibc merge sort order, the comparator's side effect on widths,
-   hostlist_coalesce with its assert, hostlist_collapse -/
+/- hostlist_sort as coded — glibc merge sort order, the comparator's side effect on widths,
+   hostlist_coalesce with its assert, hostlist_collapse.
+
+   Every loop is structurally recursive on a fuel COMPUTED from its input and reports exhaustion explicitly
+   (`RF.fuel` / `SortRes.fuel`) instead of stopping silently; there is no `partial` definition.  The definitions are cut
+   into one small function per C branch so that they can be reasoned about (`Pm/SortFProof.lean`: the result is a
+   permutation of the names).  The merge sort and `hostlist_collapse` provably never run out of fuel
+   (`msort_ne_fuel`, `collapse_ne_fuel` in `SortFProof.lean`); for `hostlist_coalesce` the bound is generous but not
+   proved sufficient, so `.fuel` stays a possible outcome in the logic (never observed in any run). -/
 namespace Pm
 
 instance : Inhabited HostRange := ⟨{ pfx := [], lo := 0, hi := 0, width := 0, single := true }⟩
@@ -33,83 +40,177 @@ def cmpM (st : Store) (i j : Nat) : Int × Store :=
   let a' := st'[i]!; let b' := st'[j]!
   (if ok then (a'.lo : Int) - b'.lo else (a'.width : Int) - b'.width, st')
 
-/-- glibc `msort_with_tmp`: top-down, n1 = n/2, take from the left run when cmp ≤ 0 -/
-partial def msort (st : Store) (ids : List Nat) : List Nat × Store :=
-  if ids.length ≤ 1 then (ids, st) else
-  let n1 := ids.length / 2
-  let (l, st1) := msort st (ids.take n1)
-  let (r, st2) := msort st1 (ids.drop n1)
-  let rec merge (st : Store) (l r : List Nat) (acc : List Nat) : List Nat × Store :=
-    match l, r with
-    | [], r => (acc.reverse ++ r, st)
-    | l, [] => (acc.reverse ++ l, st)
-    | a :: l', b :: r' =>
-      let (c, st') := cmpM st a b
-      if c ≤ 0 then merge st' l' (b :: r') (a :: acc) else merge st' (a :: l') r' (b :: acc)
-  merge st2 l r []
+/-- outcome of a fuel-bounded computation that may hit the `assert` of `hostrange_intersect` -/
+inductive RF (α : Type) where
+  | ok (a : α)
+  | abort          -- assert(hostrange_cmp(h1, h2) <= 0) in hostrange_intersect
+  | fuel           -- the computed fuel bound was not enough (never observed)
+deriving Repr, DecidableEq
 
+/-- result of `hostlist_sort` -/
 inductive SortRes where
   | ok (hl : Hostlist)
   | abort                      -- assert(hostrange_cmp(h1, h2) <= 0) in hostrange_intersect
-deriving Repr
+  | fuel                       -- modelling artefact: the computed iteration bound of `coalesce` was not enough (never observed)
+deriving Repr, DecidableEq
 
-/-- `hostlist_coalesce` on a list of ids into the store (ranges are shared objects, inserts are fresh copies) -/
-partial def coalesce (st : Store) (ids : List Nat) : Option (List Nat × Store) :=
-  let rec loop (st : Store) (ids : List Nat) (i : Nat) (fuel : Nat) : Option (List Nat × Store) :=
-    if fuel == 0 then some (ids, st) else
-    if i == 0 then some (ids, st) else
-    let p := ids[i-1]!; let q := ids[i]!
-    let a := st[p]!; let b := st[q]!
-    if a.single || b.single then loop st ids (i - 1) (fuel - 1) else
-    let (c, st) := cmpM st p q
-    if c > 0 then none else
-    let a := st[p]!; let b := st[q]!
-    if !(prefixCmp a b == 0 && a.hi > b.lo) then loop st ids (i - 1) (fuel - 1) else
-    let (ok, st) := combineM st p q
-    if !ok then loop st ids (i - 1) (fuel - 1) else
-    let a := st[p]!; let b := st[q]!
-    let newLo := b.lo; let newHi := min b.hi a.hi; let newW := a.width
-    let b1 := if newHi < a.hi then { b with hi := a.hi } else b
-    let a2 := { a with hi := newLo }
-    let b2 := { b1 with lo := newHi }
-    let st := (st.set! p a2).set! q b2
-    -- insert the split-out singles before position j (starting at i)
-    let rec ins (st : Store) (ids : List Nat) (x : Nat) (j : Nat) (fuel : Nat) : List Nat × Store :=
-      if fuel == 0 || x > newHi then (ids, st) else
-      let mk : HostRange := { pfx := a.pfx, lo := x, hi := x, width := newW, single := false }
-      let (ids, st, j) := if x > a2.hi then
-          let id := st.size; ((ids.take j) ++ [id] ++ (ids.drop j), st.push mk, j + 1) else (ids, st, j)
-      let (ids, st, j) := if x < b2.lo then
-          let id := st.size; ((ids.take j) ++ [id] ++ (ids.drop j), st.push mk, j + 1) else (ids, st, j)
-      ins st ids (x + 1) j (fuel - 1)
-    let (ids, st) := ins st ids newLo i (newHi + 2 - newLo)
-    loop st ids (ids.length - 1) (fuel - 1)
-  loop st ids (ids.length - 1) 100000
+/-- `hostlist_sort` did not return: the `assert` of `hostrange_intersect` fired (finding F19) — or, in the logic only,
+    the computed iteration bound of this mirror ran out (`.fuel`: a modelling artefact, never observed in any run, which
+    every consumer treats like the assert) -/
+def SortRes.Died (r : SortRes) : Prop := r = .abort ∨ r = .fuel
 
-/-- `hostlist_collapse` -/
-partial def collapse (st : Store) (ids : List Nat) : List Nat × Store :=
-  let rec loop (st : Store) (ids : List Nat) (i : Nat) : List Nat × Store :=
-    if i == 0 then (ids, st) else
-    let p := ids[i-1]!; let q := ids[i]!
-    let a := st[p]!; let b := st[q]!
-    if prefixCmp a b == 0 && a.hi + 1 == b.lo then
-      let (ok, st) := combineM st p q
-      if ok then
-        let a := st[p]!; let b := st[q]!
-        loop (st.set! p { a with hi := b.hi }) (ids.eraseIdx i) (i - 1)
-      else loop st ids (i - 1)
-    else loop st ids (i - 1)
-  loop st ids (ids.length - 1)
+instance (r : SortRes) : Decidable r.Died := by unfold SortRes.Died; exact inferInstance
 
+/-! ## merge sort (glibc `msort_with_tmp`) -/
+
+/-- the merge loop of `msort_with_tmp`; needs at most `l.length + r.length + 1` iterations -/
+def mergeF : Nat → Store → List Nat → List Nat → List Nat → RF (List Nat × Store)
+  | 0, _, _, _, _ => .fuel
+  | f + 1, st, l, r, acc =>
+    match l, r with
+    | [], r => .ok (acc.reverse ++ r, st)
+    | l, [] => .ok (acc.reverse ++ l, st)
+    | a :: l', b :: r' =>
+      if (cmpM st a b).1 ≤ 0 then mergeF f (cmpM st a b).2 l' (b :: r') (a :: acc)
+      else mergeF f (cmpM st a b).2 (a :: l') r' (b :: acc)
+
+/-- `msort` with the recursion depth as fuel (`ids.length + 1` is enough) -/
+def msort : Nat → Store → List Nat → RF (List Nat × Store)
+  | 0, _, _ => .fuel
+  | f + 1, st, ids =>
+    if ids.length ≤ 1 then .ok (ids, st) else
+    match msort f st (ids.take (ids.length / 2)) with
+    | .ok (l, st1) =>
+      match msort f st1 (ids.drop (ids.length / 2)) with
+      | .ok (r, st2) => mergeF (l.length + r.length + 1) st2 l r []
+      | .abort => .abort
+      | .fuel => .fuel
+    | .abort => .abort
+    | .fuel => .fuel
+
+/-! ## `hostlist_coalesce` -/
+
+/-- `hostlist_insert_range(hl, hr, j)` of a fresh copy: the copy gets the next free id -/
+def insertAt (st : Store) (ids : List Nat) (j : Nat) (mk : HostRange) : List Nat × Store :=
+  (ids.take j ++ [st.size] ++ ids.drop j, st.push mk)
+
+/-- one iteration of the `while (new->lo <= new->hi)` loop body of `hostlist_coalesce` for `new->lo = x`:
+    `a2hi` is `hprev->hi`, `b2lo` is `hnext->lo` -/
+def insOne (pfx : Name) (w a2hi b2lo : Nat) (st : Store) (ids : List Nat) (x j : Nat) : List Nat × Store × Nat :=
+  let mk : HostRange := { pfx := pfx, lo := x, hi := x, width := w, single := false }
+  let r1 : List Nat × Store × Nat :=
+    if x > a2hi then ((insertAt st ids j mk).1, (insertAt st ids j mk).2, j + 1) else (ids, st, j)
+  if x < b2lo then ((insertAt r1.2.1 r1.1 r1.2.2 mk).1, (insertAt r1.2.1 r1.1 r1.2.2 mk).2, r1.2.2 + 1) else r1
+
+/-- the `while (new->lo <= new->hi)` loop; same fuel (`newHi + 2 - newLo`) and same silent stop as `coalesce.loop.ins`
+    (the bound is exact: `x` runs `newLo..newHi`) -/
+def insF (pfx : Name) (w a2hi b2lo newHi : Nat) : Nat → Store → List Nat → Nat → Nat → List Nat × Store
+  | 0, st, ids, _, _ => (ids, st)
+  | f + 1, st, ids, x, j =>
+    if x > newHi then (ids, st) else
+    insF pfx w a2hi b2lo newHi f (insOne pfx w a2hi b2lo st ids x j).2.1 (insOne pfx w a2hi b2lo st ids x j).1
+      (x + 1) (insOne pfx w a2hi b2lo st ids x j).2.2
+
+/-- the body of `if (new) { … }` in `hostlist_coalesce`, after `hostrange_intersect` returned a range:
+    `p`, `q` are the ids of `hl->hr[i-1]`, `hl->hr[i]` -/
+def splitStep (st : Store) (ids : List Nat) (i p q : Nat) : List Nat × Store :=
+  let a := st[p]!; let b := st[q]!
+  let newLo := b.lo; let newHi := min b.hi a.hi; let newW := a.width
+  let b1 : HostRange := if newHi < a.hi then { b with hi := a.hi } else b
+  let a2 : HostRange := { a with hi := newLo }
+  let b2 : HostRange := { b1 with lo := newHi }
+  insF a.pfx newW newLo newHi newHi (newHi + 2 - newLo) ((st.set! p a2).set! q b2) ids newLo i
+
+/-- outcome of one iteration of an outer loop -/
+inductive StepRes where
+  | cont (st : Store) (ids : List Nat) (i : Nat)
+  | abort
+  | done (st : Store) (ids : List Nat)
+
+/-- the part of `hostrange_intersect` after its `assert`, and the `if (new)` body -/
+def coalesceTail (st : Store) (ids : List Nat) (i p q : Nat) : StepRes :=
+  if !(prefixCmp st[p]! st[q]! == 0 && (st[p]!).hi > (st[q]!).lo) then .cont st ids (i - 1) else
+  if !(combineM st p q).1 then .cont (combineM st p q).2 ids (i - 1) else
+  .cont (splitStep (combineM st p q).2 ids i p q).2 (splitStep (combineM st p q).2 ids i p q).1
+    ((splitStep (combineM st p q).2 ids i p q).1.length - 1)
+
+/-- one iteration of `for (i = hl->nranges - 1; i > 0; i--)` in `hostlist_coalesce` -/
+def coalesceStep (st : Store) (ids : List Nat) (i : Nat) : StepRes :=
+  if i == 0 then .done st ids else
+  if (st[ids[i-1]!]!).single || (st[ids[i]!]!).single then .cont st ids (i - 1) else
+  if (cmpM st ids[i-1]! ids[i]!).1 > 0 then .abort else
+  coalesceTail (cmpM st ids[i-1]! ids[i]!).2 ids i ids[i-1]! ids[i]!
+
+def coalesceLoopF : Nat → Store → List Nat → Nat → RF (List Nat × Store)
+  | 0, _, _, _ => .fuel
+  | f + 1, st, ids, i =>
+    match coalesceStep st ids i with
+    | .done st ids => .ok (ids, st)
+    | .abort => .abort
+    | .cont st ids i => coalesceLoopF f st ids i
+
+/-- number of ranges plus number of hosts -/
+def coalesceSize (st : Store) (ids : List Nat) : Nat :=
+  ids.length + (ids.map fun i => (st[i]!).cnt).sum
+
+/-- generous bound for the number of iterations of the outer loop of `hostlist_coalesce`.  Every split restarts the scan
+    at the end of the list; with `N` hosts there are at most `N/2` splits that add ranges, between two of them at most
+    `N²` splits that only exchange the ends of two ranges (each removes an inversion of the `hi` sequence), and a scan
+    has at most `N` iterations — hence the fourth power.  (The square is NOT enough: 10 copies of `n[1-30]` need
+    109364 iterations with `(size+2)² = 97344`.)  Sufficiency is not proved; `.fuel` reports exhaustion. -/
+def coalesceFuel (st : Store) (ids : List Nat) : Nat := (coalesceSize st ids + 2) ^ 4
+
+def coalesce (st : Store) (ids : List Nat) : RF (List Nat × Store) :=
+  coalesceLoopF (coalesceFuel st ids) st ids (ids.length - 1)
+
+/-! ## `hostlist_collapse` -/
+
+/-- one iteration of `for (i = hl->nranges - 1; i > 0; i--)` in `hostlist_collapse` -/
+def collapseStep (st : Store) (ids : List Nat) (i : Nat) : StepRes :=
+  if i == 0 then .done st ids else
+  if prefixCmp st[ids[i-1]!]! st[ids[i]!]! == 0 && (st[ids[i-1]!]!).hi + 1 == (st[ids[i]!]!).lo then
+    if (combineM st ids[i-1]! ids[i]!).1 then
+      .cont ((combineM st ids[i-1]! ids[i]!).2.set! ids[i-1]!
+              { (combineM st ids[i-1]! ids[i]!).2[ids[i-1]!]! with hi := ((combineM st ids[i-1]! ids[i]!).2[ids[i]!]!).hi })
+            (ids.eraseIdx i) (i - 1)
+    else .cont (combineM st ids[i-1]! ids[i]!).2 ids (i - 1)
+  else .cont st ids (i - 1)
+
+def collapseLoopF : Nat → Store → List Nat → Nat → RF (List Nat × Store)
+  | 0, _, _, _ => .fuel
+  | f + 1, st, ids, i =>
+    match collapseStep st ids i with
+    | .done st ids => .ok (ids, st)
+    | .abort => .abort
+    | .cont st ids i => collapseLoopF f st ids i
+
+/-- `i` goes down by one per iteration from `ids.length - 1`, so `ids.length + 1` iterations are enough -/
+def collapse (st : Store) (ids : List Nat) : RF (List Nat × Store) :=
+  collapseLoopF (ids.length + 1) st ids (ids.length - 1)
+
+/-! ## `hostlist_sort` -/
+
+def finishF (r : RF (List Nat × Store)) : SortRes :=
+  match r with
+  | .ok (ids, st) => .ok (ids.map fun i => st[i]!)
+  | .abort => .abort
+  | .fuel => .fuel
+
+def afterCoalesceF (r : RF (List Nat × Store)) : SortRes :=
+  match r with
+  | .ok (ids, st) => finishF (collapse st ids)
+  | .abort => .abort
+  | .fuel => .fuel
+
+def afterMsortF (r : RF (List Nat × Store)) : SortRes :=
+  match r with
+  | .ok (ids, st) => afterCoalesceF (coalesce st ids)
+  | .abort => .abort
+  | .fuel => .fuel
+
+/-- `hostlist_sort`, total -/
 def sortHL (hl : Hostlist) : SortRes :=
   if hl.length ≤ 1 then .ok hl else
-  let st : Store := hl.toArray
-  let (ids, st) := msort st (List.range hl.length)
-  match coalesce st ids with
-  | none => .abort
-  | some (ids, st) =>
-    let (ids, st) := collapse st ids
-    .ok (ids.map fun i => st[i]!)
+  afterMsortF (msort (hl.length + 1) hl.toArray (List.range hl.length))
 
 end Pm
-
